@@ -32,13 +32,17 @@ def plan(tier):
 
 
 def strategy(tier):
-    return sim_case(SCHEDS, tier)
+    from verif.checks.c06 import gen_case
+    # custom DAG schedules (most cases) and generator / generator->CSV->trace workloads
+    from verif.checks.c12 import preempt_case
+    return st.one_of(sim_case(SCHEDS, tier), sim_case(SCHEDS, tier), sim_case(SCHEDS, tier), sim_case(SCHEDS, tier), gen_case(tier),
+                     preempt_case(tier))
 
 
 def zero_tick_ops(spec):
     from verif.model import ticks as T
     tps = spec["params"]["ticks_per_second"]
-    for _, ps in spec["arrivals"]:
+    for _, ps in spec.get("arrivals", []):
         for o in ps["ops"]:
             if all(min(T.io_ticks(sg["read"], tps)) == 0 and sg["cpu"] * tps < 1 for sg in o["segs"]):
                 return True
@@ -53,7 +57,7 @@ def run_case(spec):
     P = collect(out, {"C08"})
     multi = p["multi_operator_containers"]
     d8 = (p["scheduler_algo"] == "priority-pool" and not multi
-          and any(len(ps["ops"]) >= 2 for _, ps in spec["arrivals"]))
+          and (any(len(ps["ops"]) >= 2 for _, ps in spec.get("arrivals", [])) or spec.get("workload") in ("generator", "trace")))
     if rec.exception is not None:
         e = rec.exception
         known = None
@@ -87,5 +91,6 @@ def run_case(spec):
         out.label("float_inexact_triple")
     if corner:
         out.label("corner")
-    out.nontrivial = bool(c["retry"] or c["nsus"] or corner) and bool(spec["arrivals"])
+    out.label("workload_" + spec.get("workload", "schedule"))
+    out.nontrivial = bool(c["retry"] or c["nsus"] or corner) and bool(rec.arrival_order)
     return out
